@@ -6,6 +6,7 @@
   Line-by-line transcription; the recursion of `sortCallback` takes fuel (running out of fuel
   models unbounded recursion in the Go code, i.e. a stack overflow).
 -/
+import GormModel.Gen.CallbackFacts
 namespace Gorm
 
 structure Cb where
@@ -265,6 +266,10 @@ def Proc.compileR (r : CbRepairs) (p : Proc) : Proc × Option SortErr :=
 
 def Proc.applyR (r : CbRepairs) (p : Proc) (op : RegOp) : Proc × Option SortErr :=
   ({ p with callbacks := p.callbacks ++ [op.toCb] }).compileR r
+
+/-- the repairs present in the tree under check (regenerated facts) -/
+def treeRepairs : CbRepairs :=
+  { depthGuard := Gen.sortDepthGuard, sortCopies := Gen.sortWorksOnCopies, starOrder := Gen.sortStarOrder }
 
 def Proc.runR (r : CbRepairs) (p : Proc) (ops : List RegOp) : Proc × List (Option SortErr) :=
   ops.foldl (fun (acc : Proc × List (Option SortErr)) op =>
